@@ -1466,6 +1466,17 @@ Theorem C02_multi_members_named :
         lookup_entry (LoadsMultiObjStm.final_known st a tops parts pos prev known maxnum) n = Some (SComp c k).
 Proof. exact LoadsMultiObjStm.known_names_members. Qed.
 
+(* the same about ref_write_multi itself: its own checks (numbers duplicate free, every member an object of the document, every
+   top-level object placed in exactly one part) supply every hypothesis but the clause on mp_nums *)
+Theorem C02_multi_members_named_file :
+  forall (st : fstyle) (parts : list mpart) (a : adoc) (file : bytes),
+    ref_write_multi st parts a = Some file ->
+    (forall p n, In p parts -> In n (mp_nums p) -> ~ In n (compressed_nums st)) ->
+    forall p n c k, In p parts -> find_comp (part_containers st p) n = Some (c, k) ->
+      lookup_entry (LoadsMultiObjStm.final_known st a (LoadsMultiObjStm.multi_tops st a) parts
+                      (N.of_nat (length (RefWriter.header st (a_version a)))) None [] 0) n = Some (SComp c k).
+Proof. exact LoadsMultiObjStm.multi_members_named. Qed.
+
 (* [part_dom] is NEEDED, and C02_loads_multi_partial as it stands (no domain) is FALSE: write_parts accepts a superseded
    definition (mp_old) when a later part's mp_nums merely NAMES the number, and does not ask that the later part holds a
    definition.  Three parts: part 1 holds the object stream 20 with member 7 (a dictionary); part 2 holds a "superseded" top-level
@@ -1499,6 +1510,37 @@ Proof.
   - intro H. inversion H as [|? ? _ H2]; subst. inversion H2 as [|? ? _ H3]; subst. inversion H3 as [|? ? [Hd _] _]; subst.
     apply (Hd 7); [left; reflexivity|vm_compute; tauto].
 Qed.
+
+(* ---------------------------------------------------------------------------------------------
+   C02_full_all_partial: THE UNION -- every file the reference writer denotes, written by ref_write (C02_full) or by
+   ref_write_multi (C02_loads_multi_objstm_partial), loads to the version, exactly the objects (by value; the file-structure
+   objects [S] of the style excepted) and the trailer its abstract document defines.  [C02_written file a S]: some style of the
+   writer's space, inside the proved domain, produces [file] for [a].  PARTIAL only in the domain of the second disjunct
+   (C02_multi_domain_all: object streams in files of two or more parts are missing). *)
+Definition C02_written (file : bytes) (a : adoc) (S : list N) : Prop :=
+  (exists st, C02_domain st a /\ ref_write st a = Some file /\ S = structural_nums st) \/
+  (exists st parts, C02_multi_domain_all st parts a file /\ ref_write_multi st parts a = Some file /\
+                    S = map os_id (s_ostms st) ++ part_xids parts).
+
+Theorem C02_full_all_partial :
+  forall (file : bytes) (a : adoc) (S : list N),
+    C02_written file a S ->
+    exists d t, LoaderExt.load_ext LoadsFilterProofs.decompress_ref LoadsFilterProofs.can_ref file = LOk d t /\
+                d_version d = a_version a /\
+                (forall id, In (fst id) S \/
+                            match lookup (d_objects d) id, lookup (content a) id with
+                            | Some o, Some o' => same_value o' o
+                            | None, None => True
+                            | _, _ => False
+                            end) /\
+                (forall k, In k [bs "Type"; bs "W"; bs "Index"; bs "Length"; bs "Filter"; bs "DecodeParms"] \/
+                           match dict_get (d_trailer d) k, dict_get (a_trailer a ++ [(bs "Size", OInt (Z.of_N (1 + max_num
+                                   (map (fun io => fst (fst io)) (a_objs a) ++ S))))]) k with
+                           | Some o, Some o' => same_value o' o
+                           | None, None => True
+                           | _, _ => False
+                           end).
+Proof. exact LoadsMultiAll.full_all. Qed.
 
 (* ---------- non-vacuity ---------- *)
 Definition ex_secs : xsections := [(0, [SFree 0 65535; SInUse 17 0]); (5, [SComp 3 1; SInUse 70000 2])].
@@ -1630,6 +1672,8 @@ Print Assumptions C02_multi_one_part_is_single.
 Print Assumptions C02_loads_multi_objstm_partial.
 Print Assumptions C02_example_loads_multi_objstm.
 Print Assumptions C02_multi_members_named.
+Print Assumptions C02_multi_members_named_file.
+Print Assumptions C02_full_all_partial.
 Print Assumptions C02_loads_multi_partial_needs_domain.
 Print Assumptions C02_example_loads_table.
 Print Assumptions C02_example_object.
